@@ -115,7 +115,7 @@ theorem spec_mapper (own : List Nat) (dom : Nat) (g : Glob) (s : SpecSt) (img : 
               · simp [hs]
               · simp only [hs]
                 simp
-                split <;> (try split) <;> rfl
+                (repeat' split) <;> rfl
             · by_cases o34 : fOpcode img = 3 ∨ fOpcode img = 4
               · rcases o34 with h | h
                 · simp only [h]; simp
@@ -140,7 +140,7 @@ theorem spec_mapper (own : List Nat) (dom : Nat) (g : Glob) (s : SpecSt) (img : 
             · simp [hs]
             · simp only [hs]
               simp
-              split <;> (try split) <;> rfl
+              (repeat' split) <;> rfl
           · simp [o8, o0, o11]
     · have ts0 : ¬ Spec.fTos img = 0 := by rw [spec_fTos]; exact t0
       have ts1 : ¬ Spec.fTos img ≤ 1 := by rw [spec_fTos]; omega
